@@ -694,6 +694,8 @@ class Interp:
         if isinstance(fv, Opaque):
             self.dropped.add('call of ' + fv.what)
             return Opaque(fv.what + '()')
+        if hasattr(fv, 'fi') and type(fv).__name__ == 'LocalFn':
+            return self.inline(fv.fi, list(args), kwargs)       # nested helper function: inlined
         model = self.lookup_model(fv)
         if model is not None:
             return model(self, fr, *args, **kwargs)
@@ -747,7 +749,9 @@ class Interp:
 
     def call_method(self, base, attr, args, kwargs, fr, base_node, node):
         if isinstance(base, Choice):
-            # e.g. optional value: method call on each alternative is not supported in general
+            if all(isinstance(v, (str, int, Fraction)) for _, v in base.alts) and not any(is_symbolic(a) for a in args):
+                from . import models as M
+                return ops.map_choice(base, lambda v: M.value_method(self, fr, v, attr, args, kwargs)[0])
             raise Unsupported('method call on a guarded union')
         if isinstance(base, Obj):
             fi = self.sb.class_method(base.cls, attr)
@@ -1458,6 +1462,16 @@ class Interp:
             return self.eval(node, f2)
         finally:
             self.in_spec -= 1
+
+    def eval_spec_value(self, text, env):
+        """evaluate a spec expression in an explicit environment (used by receiver builders)"""
+        f2 = Frame(None, dict(env), spec=True, ns={})
+        self.in_spec += 1
+        try:
+            v = self.eval(self.parse_spec(text), f2)
+        finally:
+            self.in_spec -= 1
+        return ops.z3bool(v) if is_symbolic(v) else bool(v)
 
     _spec_cache = {}
 
